@@ -362,7 +362,7 @@ class CalendarOrderProperty(webdav.Property):
         el.text = resource.get_calendar_order()
 
     async def set_value(self, href, resource, el):
-        resource.set_calendar_order(el.text)
+        resource.set_calendar_order(webdav._text_or_none(el))
 
 
 class CalendarMultiGetReporter(davcommon.MultiGetReporter):
@@ -591,7 +591,7 @@ class CalendarColorProperty(webdav.Property):
         el.text = resource.get_calendar_color()
 
     async def set_value(self, href, resource, el):
-        resource.set_calendar_color(el.text)
+        resource.set_calendar_color(webdav._text_or_none(el))
 
 
 class CreatedByProperty(webdav.Property):
